@@ -1169,12 +1169,6 @@ class Ac3(RangedFmt):
         return {"codec": "ac-3", "sample_rate": AC3_RATES[fscod] >> shift, "bitrate": (AC3_KBPS[frm >> 1] * 1000) >> shift,
                 "channels": AC3_NFCHANS[acmod] + lfe}
 
-    def annotate(self, p, bad):
-        names = sorted(b.split(":")[0] for b in bad)
-        if names == ["channels"] and p[4] in (0, 1, 5, 7):
-            return {"known_shape": "ac3-lfeon-read-at-fixed-bit-position", "acmod": p[4]}
-        return {}
-
 
 class Eac3(RangedFmt):
     name, mfmt = "eac3", "ac3"
@@ -1314,6 +1308,15 @@ def invalid_cases(ctx):
         p = F.params_random(rng)
         p[3] = ri
         todo.append((F, p))
+    F = BYNAME["wavpack"]
+    for _ in range(3):
+        p = F.params_random(rng)
+        p[8] = 15            # "non-standard rate": no table row
+        todo.append((F, p))
+    F = BYNAME["speex"]
+    p = F.params_random(rng)
+    p[1] = 0
+    todo.append((F, p))
     for F, p in todo:
         b = F.build(ctx, p)
         file = F.wrap(b, p)
@@ -1329,6 +1332,43 @@ def invalid_cases(ctx):
                          {"fmt": F.name, "params": [str(x) for x in p]})
         if st == "ok":
             ctx.violation("oracle", "%s: invalid header value accepted" % F.name, {"class": F.slug + "-invalid-accepted", "fmt": F.name, "params": [str(x) for x in p], "invalid": True})
+    # malformed Musepack SV8 packet streams (sizes smaller than the packet header, huge sizes, missing packets)
+    for raw in (b"MPCK" + b"XX\x00" + b"\x00" * 20, b"MPCK" + b"XX\x02" + b"\x00" * 20,
+                b"MPCK" + b"SH" + b"\xff" * 8 + b"\x7f" + b"\x00" * 20, b"MPCK" + b"AP\x03", b"MPCK" + b"SE\x03",
+                b"MPCK" + b"ZZ\x03" * 5 + b"SE\x03", b"MPCK" + b"aa\x03", b"MPCK" + b"RG\x0c\x01" + b"\x00" * 8 + b"AP\x03",
+                b"MPCK" + b"RG\x05\x01\x00" + b"AP\x03"):
+        st, impl = run_impl(lambda: BYNAME["mpc8"].impl(raw))
+        mst, mv = mdecode(ctx, "mpc", raw, None)
+        ctx.corr_cases += 1
+        ctx.count("mpc8:malformed")
+        ctx.case(("mpc8", "malformed", raw))
+        if st != mst or (st == "raise" and impl != mv):
+            ctx.disagree("c05.mpc8", "malformed stream %s: impl %s %s, model %s %s" % (raw.hex(), st, impl if st == "raise" else "", mst, mv),
+                         {"fmt": "mpc-raw", "raw": raw.hex()})
+    # truncated chunks / identification packets: same outcome (and exception class) in model and implementation
+    for name in ("vorbis", "opus", "speex", "theora", "oggflac", "wave", "aiff"):
+        F = BYNAME[name]
+        p = F.params_random(rng)
+        b = F.build(ctx, p)
+        for n in sorted({0, 1, 7, 8, 12, 13, 15, 16, 17, 18, 19, 27, 28, 41, 42, 50, 51, 55, 56, len(b) - 1}):
+            if not 0 <= n < len(b):
+                continue
+            cut = b[:n]
+            file = F.wrap(cut, p)
+            st, impl = run_impl(lambda: F.impl(file))
+            data, extra = F.model_input(cut, file, p)
+            if name == "wave":
+                extra = zs(extra)
+            mst, mv = mdecode(ctx, F.mfmt, data, extra)
+            ctx.corr_cases += 1
+            ctx.count(name + ":truncated")
+            ctx.case((name, "truncated", n))
+            magic_len = {"vorbis": 7, "opus": 8, "speex": 8, "theora": 7, "oggflac": 5}.get(name, 0)
+            if n < magic_len:
+                continue        # the loader does not even find the stream: outside the packet-level model
+            if st != mst or (st == "raise" and impl != mv):
+                ctx.disagree("c05." + name, "truncated to %d bytes %r: impl %s %s, model %s %s" % (n, p, st, impl if st == "raise" else "", mst, mv),
+                             {"fmt": name, "params": [str(x) for x in p], "cut": n})
 
 
 # ---- samples --------------------------------------------------------------------------------------
